@@ -21,7 +21,7 @@ func plain(id int64) string { return fmt.Sprint(id) }
 func nanoSeqCase(k *engine.Case) {
 	r := k.R
 	budget := 300 + r.Intn(2500)
-	limit := int64(math.MaxInt64) - int64(budget) - 8 // domain: ts and start <= MaxInt64 - calls
+	limit := int64(math.MaxInt64) - 2*int64(budget) - 16 // domain: ts and start <= MaxInt64 - calls (the wall-clock calls mixed in count too)
 	var start int64
 	switch r.Intn(8) {
 	case 0:
@@ -61,6 +61,21 @@ func nanoSeqCase(k *engine.Case) {
 	one := func(ts int64) bool {
 		if ts > limit {
 			ts = limit
+		}
+		if r.Intn(7) == 0 {
+			// the wall-clock entry point of the same generator, in between: whatever the
+			// machine's clock reads now (usually far below or above the scripted readings),
+			// the id has to be above everything returned so far
+			id := g.(interface{ GenID() int64 }).GenID()
+			calls++
+			k.Evals(1)
+			k.Count("nano_wallclock_calls", 1)
+			if have && id <= last {
+				k.Logf("  call %d: GenID() -> %d after %d", calls, id, last)
+				k.Fail("nano/not-increasing", "%s start=%d: call %d GenID() (wall clock) returned %d after %d", variant, start, calls, id, last)
+				return false
+			}
+			last, have, cur = id, true, id
 		}
 		id := g.GenIDByTS(ts)
 		calls++
